@@ -51,7 +51,7 @@ Proof. vm_compute. reflexivity. Qed.
 
 
 (* ---------- from the path text (SliceParse.v, ChainParse.v, ChainAddr.v) ---------- *)
-From JP Require Import Peg Grammar Tree Actions Json Eval EvalInv1 EvalInv4 EvalTop KeyDefs KeyParse IdxParse SliceParse WildParse RecParse ChainParse ChainAddr.
+From JP Require Import Peg Grammar Tree Actions Json Eval EvalInv1 EvalInv4 EvalTop KeyDefs KeyParse IdxParse SliceParse UnionParse WildParse RecParse ChainParse ChainAddr.
 Open Scope list_scope.
 
 (* For EVERY slice text [a:b] / [a:b:c] — each bound omitted or an optionally signed number that fits int64 — and
@@ -90,4 +90,45 @@ Example C11_slice_text_example :
   chain_path [RPlain (SSlice [45; 51]%N [] (Some [50]%N))] = [36; 91; 45; 51; 58; 58; 50; 93]%N /\
   step_ok (SSlice [45; 51]%N [] (Some [50]%N)) = true /\
   map snd (nav_all [RPlain (SSlice [45; 51]%N [] (Some [50]%N))] ([], VArr [VNull; VBool true; VBool false; VNull; VBool true])) = [VBool false; VBool true].
+Proof. repeat split; vm_compute; reflexivity. Qed.
+
+
+(* For EVERY union text [s1,s2,...] — each subscript an optionally signed index, a slice or the wildcard (the first one
+   not the wildcard: `[*,...]` is read by the multi-name rule first), all numbers fitting int64 — and every array: the path
+   is accepted and returns, for each subscript in the order written, the elements that subscript selects (py_index for
+   an index: from the front, from the back when negative, nothing when out of range; py_slice for a slice; every
+   element for the wildcard), duplicates kept.  A single signed index `[-1]` is the one-subscript case. *)
+Theorem C11_union_from_text : forall cfg parse_float regex_ok ffun afun regex_match,
+  (forall f v w, small v -> ffun f v = Some w -> small w) ->
+  (forall f l w, Forall small l -> afun f l = Some w -> small w) ->
+  forall u us xs st, step_ok (SUnion u us) = true -> small (VArr xs) -> ok st ->
+  exists t, parse_with cfg parse_float regex_ok jsonpath_grammar (chain_path [RPlain (SUnion u us)]) = ParseOk t /\
+            match nav_all [RPlain (SUnion u us)] ([], VArr xs) with
+            | [] => exists e, fst (eval_run ffun afun regex_match t (VArr xs) st) = OErr e
+            | l => fst (eval_run ffun afun regex_match t (VArr xs) st) = OOk (map (loc_result cfg) l)
+            end.
+Proof.
+  intros cfg pf rx ffun afun rm H1 H2 u us xs st Hs Hsm Hok.
+  apply (chain_retrieval cfg pf rx ffun afun rm H1 H2 (RPlain (SUnion u us)) [] (VArr xs) st); [|exact Hsm|exact Hok].
+  cbn [forallb rstep_ok]. rewrite Hs. reflexivity.
+Qed.
+Print Assumptions C11_union_from_text.
+
+Theorem C11_union_nav : forall u us xs,
+  map snd (nav_all [RPlain (SUnion u us)] ([], VArr xs)) =
+  flat_map (fun v => flat_map (fun i => match nth_value xs i with Some x => [x] | None => [] end)
+                              (sub_indexes v (Z.of_nat (List.length xs)))) (u :: us).
+Proof.
+  intros u us xs. cbn [nav_all nav1r nav1 fst snd].
+  generalize (u :: us). intros l. induction l as [|v l IH]; [reflexivity|].
+  cbn [flat_map]. rewrite flat_map_app, map_app, IH. f_equal.
+  generalize (sub_indexes v (Z.of_nat (List.length xs))). intros is. induction is as [|i is IHi]; [reflexivity|].
+  cbn [flat_map]. rewrite flat_map_app, map_app, IHi. destruct (nth_value xs i); reflexivity.
+Qed.
+
+Example C11_union_text_example :
+  chain_path [RPlain (SUnion (UIdx [45; 49]%N) [UWild; USlice [49]%N [] None])] = [36; 91; 45; 49; 44; 42; 44; 49; 58; 93]%N /\
+  step_ok (SUnion (UIdx [45; 49]%N) [UWild; USlice [49]%N [] None]) = true /\
+  map snd (nav_all [RPlain (SUnion (UIdx [45; 49]%N) [UWild; USlice [49]%N [] None])] ([], VArr [VNull; VBool true; VBool false])) =
+    [VBool false; VNull; VBool true; VBool false; VBool true; VBool false].
 Proof. repeat split; vm_compute; reflexivity. Qed.
